@@ -34,6 +34,7 @@ py_str_obj = z3.Function("py_str_obj", Obj, z3.StringSort())
 py_repr_obj = z3.Function("py_repr_obj", Obj, z3.StringSort())
 py_str_int = z3.Function("py_str_int", z3.IntSort(), z3.StringSort())
 py_len_obj = z3.Function("py_len_obj", Obj, z3.IntSort())
+py_type_obj = z3.Function("py_type_obj", Obj, Obj)
 
 
 def lineno(node):
@@ -1031,6 +1032,14 @@ def instantiate(I, st, cls, args, kwargs, node):
             return [(st, {"int": int, "str": str, "bool": bool}[a.k])]
         if isinstance(a, Exc) and a.cls is not None:
             return [(st, a.cls)]
+        sp = I.specs.get("type_obj")
+        if sp is not None:
+            r = sp(I, st, [a], {}, node)
+            if r is not None:
+                return r
+        if isinstance(a, Sym) and a.k == "obj":
+            # the class of an opaque value: an opaque value itself (py_type is a function of the value)
+            return [(st, Sym(py_type_obj(a.t), "obj", a.tags))]
         raise Unsupported("type() of opaque value", node)
     return None
 
